@@ -12,12 +12,32 @@ use crate::gram::*;
 pub fn bnf_space(tier: Tier) -> BnfSpace {
     match tier {
         Tier::Quick => BnfSpace { max_nt: 2, max_t: 2, max_len: 3, max_alts: 3, max_size: 7 },
-        Tier::Thorough => BnfSpace { max_nt: 3, max_t: 3, max_len: 3, max_alts: 3, max_size: 9 },
+        Tier::Thorough => BnfSpace { max_nt: 2, max_t: 2, max_len: 3, max_alts: 3, max_size: 8 },
     }
+}
+
+/// three non-terminals, well-formed for LL only (the ill-formed ones are C11's business)
+pub fn bnf_space3(tier: Tier) -> BnfSpace {
+    match tier {
+        Tier::Quick => BnfSpace { max_nt: 3, max_t: 2, max_len: 3, max_alts: 2, max_size: 9 },
+        Tier::Thorough => BnfSpace { max_nt: 3, max_t: 2, max_len: 3, max_alts: 2, max_size: 11 },
+    }
+}
+
+pub fn spaces_text(tier: Tier) -> String {
+    format!("all canonical BNF grammars of {:?}, the left-recursion-free productive reachable ones of {:?}{}", bnf_space(tier), bnf_space3(tier), if tier == Tier::Thorough { " and of nt<=3,t<=3,len<=3,alts<=3,size<=9" } else { "" })
 }
 
 pub fn ll_grammars(tier: Tier) -> Vec<Gram> {
     let mut v = enum_bnf(&bnf_space(tier), false);
+    let mut three = enum_bnf_pre(&bnf_space3(tier), false, Pre::WellFormedLl);
+    three.retain(|g| g.nts.len() == 3);
+    v.extend(three);
+    if tier == Tier::Thorough {
+        let mut t3 = enum_bnf_pre(&BnfSpace { max_nt: 3, max_t: 3, max_len: 3, max_alts: 3, max_size: 9 }, false, Pre::WellFormedLl);
+        t3.retain(|g| g.terms.len() == 3);
+        v.extend(t3);
+    }
     match tier {
         Tier::Quick => {
             v.extend(enum_ebnf(5, 2, 2, false, false));
@@ -353,8 +373,8 @@ pub fn run(id: &str, tier: Tier, replay: Option<&str>) -> i32 {
         }
     });
     let rule = format!(
-        "every canonical BNF grammar of {:?} plus EBNF bodies (groups/optionals/repetitions, depth<=2..3) as PAR text, lookahead limit K in {:?}; for each grammar parol accepts as LL(K): every token string of length <= {} over its terminals plus one foreign token, rendered with and without blanks, with recovery on and off, through the real scanner and LLKParser. Non-trivial = runs on grammars that have both sentences and non-sentences within the bound.",
-        bnf_space(tier), ks, n
+        "{} plus EBNF bodies (groups/optionals/repetitions, depth<=2..3) as PAR text, lookahead limit K in {:?}; for each grammar parol accepts as LL(K): every token string of length <= {} over its terminals plus one foreign token, rendered with and without blanks, with recovery on and off, through the real scanner and LLKParser. Non-trivial = runs on grammars that have both sentences and non-sentences within the bound.",
+        spaces_text(tier), ks, n
     );
     finish(
         &ctx,
